@@ -21,6 +21,17 @@ def run(c):
                      "node restarts inside prefixes are covered by C05/C14, not here"]
     g = c.gotest("node", "TestGenesisNetwork", timeout=1200, tag="fresh genesis networks")
     c.absorb(g)
+    # the handlers conform to KardiaNode in the states where progress is decided (stale locks, precommit-wait
+    # re-arming, round skips, POL waits): exhaustive transitions from the scripted start states, replayed on a real
+    # node (same binding as C03, reduced scale) — a stale lock or a timeout that is never re-armed shows here as a
+    # state/ticker mismatch long before a network run happens to walk into it
+    import checks.nodecommon as nc
+    table = nc.proposer_table(c)
+    d = nc.env_bfs(c, table, 2, 2, "bfs2-prefixes", prefixes=True)
+    g = c.gotest("node", "TestEnvReplay", env=dict(NODE_DUMP=d, NODE_ME=2, NODE_STRIDE=(4 if th else 25)), timeout=6000,
+                 tag="replay of MC_NodeEnv transitions on a real node")
+    c.absorb(g)
+    os.remove(d)
     cfgs = ["4eq-byz", "4eq-byz2", "4w-byz", "3eq-nobyz", "4eq-calm"] + (["5w-byz", "7eq-byz2"] if th else [])
     c01.net_runs(c, cfgs, 60 if th else 6, ("net:liveness", "net:panic"))
     if not th:
